@@ -61,16 +61,21 @@ def ext_float(e):
 
 
 # ----------------------------------------------------------------------------------------------- generators
-def gen_distribution(rng):
+def gen_distribution(rng, mag=0):
+    """mag: 0 = O(1) domains only; 1 = 15% of the cases on the domains / parameters of the magnitude axis (lesson d); 2 = the same without the
+    domain 1e6 + [0, 1] (adaptive runs: the triangle first moment of the unchanged code breaks down there, known finding)."""
     r = rng.random()
+    big = mag and rng.random() < 0.15
+    magd = MAG_DOMAINS if mag == 1 else MAG_DOMAINS[:3]
+    magn = MAG_NORMALS if mag == 1 else MAG_NORMALS[:2]
     if r < 0.3:
-        a, b = rng.choice([(0.0, 1.0), (-1.0, 3.0), (2.0, 2.5), (-3.0, 6.0)])
+        a, b = rng.choice(magd) if big else rng.choice([(0.0, 1.0), (-1.0, 3.0), (2.0, 2.5), (-3.0, 6.0)])
         return ('Uniform',), a, b
     if r < 0.6:
-        a, b = rng.choice([(0.0, 1.0), (-1.0, 3.0), (2.0, 2.5), (0.0, 2.0)])
+        a, b = rng.choice(magd) if big else rng.choice([(0.0, 1.0), (-1.0, 3.0), (2.0, 2.5), (0.0, 2.0)])
         c = a + (b - a) * rng.choice([0.25, 0.5, 0.75, 0.125, 0.3, 0.9, 0.0])     # 0.0: mode at the lower end (c = b: chaospy's cdf(b) = 0, excluded)
         return ('Triangle', c), a, b
-    mu, sigma = rng.choice([(0.2, 1.0), (0.0, 2.0), (-3.0, 0.5), (10.0, 0.25), (0.0, 1.0)])
+    mu, sigma = rng.choice(magn) if big else rng.choice([(0.2, 1.0), (0.0, 2.0), (-3.0, 0.5), (10.0, 0.25), (0.0, 1.0)])
     r = rng.random()
     if r < 0.6:
         return ('Normal', mu, sigma), -math.inf, math.inf
@@ -83,7 +88,7 @@ def gen_distribution(rng):
 
 
 def gen_weight_case(rng):
-    distr, a, b = gen_distribution(rng)
+    distr, a, b = gen_distribution(rng, mag=1)
     boundary = rng.random() < 0.5
     mb = (distr[0] == 'Uniform') and (not boundary) and rng.random() < 0.3
     r = rng.random()
@@ -94,7 +99,7 @@ def gen_weight_case(rng):
         style = rng.choice(['uniform', 'random'])
     picks = [rng.random() for _ in range(max(0, n - 2))]
     xm = []
-    if rng.random() < 0.5:
+    if rng.random() < 0.5 and not (distr[0] == 'Normal' and (abs(distr[1]) > 64 or distr[2] > 64)):      # a + 1e-14 must be representable
         # intervals on which ppf cannot deliver an inner point: the fallbacks of get_middle_weighted (far tails: cdf differences
         # underflow; outside the support). |a|, |b| stay below 64 so that a + 1e-14 is representable.
         if distr[0] == 'Normal':
@@ -161,6 +166,19 @@ def gen_shared_domain_case(rng):
 
 
 def gen_moment_case(rng):
+    c = _gen_moment_case(rng)
+    c['fscale'] = rng.choice([1.0, 1.0, 1.0, 1.0, 2.0 ** -40, 2.0 ** -30, 2.0 ** -16, 2.0 ** -8, 2.0 ** 10, 2.0 ** 20])          # magnitude of the model output (lesson d)
+    if len(c['a']) == 2 and rng.random() < 0.03:
+        c['maxev'] = 300                                                         # a run well beyond the usual sizes (lesson h)
+    if rng.random() < 0.2:
+        # the affine map itself across magnitudes: Var[c f] = c^2 Var[f] puts the two outputs of ONE run many orders of magnitude apart
+        # (an absolute threshold anywhere between them breaks the law)
+        c['c'] = rng.choice([2.0 ** -36, 2.0 ** -20, -2.0 ** -12, 2.0 ** 14, 2.0 ** 30])
+        c['e'] = 0.0
+    return c
+
+
+def _gen_moment_case(rng):
     r = rng.random()
     if r < 0.4:
         return dict(gen_peaked_case(rng), stages=rng.choice([0, 0, 0, 1]))
@@ -169,7 +187,7 @@ def gen_moment_case(rng):
     dim = rng.choice([1, 2, 2, 2])
     distrs, a, b = [], [], []
     for _ in range(dim):
-        d, lo, hi = gen_distribution(rng)
+        d, lo, hi = gen_distribution(rng, mag=2)
         distrs.append(list(d)); a.append(lo); b.append(hi)
     infinite = any(math.isinf(x) for x in a + b)
     boundary = (not infinite) and rng.random() < 0.4
@@ -351,19 +369,32 @@ def impl_moments(case):
                 gv = math.sin(x[0]) + (0.5 * math.cos(2.0 * x[-1]) if dim > 1 else 0.25)
             else:
                 gv = math.sin(x[0]) + (1.0 if x[-1] > 0.3 else 0.0)
-            return [gv, c * gv + e] + ([const] if case.get('outputs', 2) == 3 else [])
+            fs = case.get('fscale', 1.0)
+            return [fs * gv, fs * (c * gv + e)] + ([fs * const] if case.get('outputs', 2) == 3 else [])
 
         def output_length(self):
             return case.get('outputs', 2)
     a = np.array(case['a']); b = np.array(case['b'])
+
+    def build():
+        """One pipeline: operation, grid, adaptive run up to case['maxev'] evaluations. The argument objects are returned for the
+        immutability comparison (lesson a)."""
+        a_arg, b_arg = np.array(case['a'], dtype=float), np.array(case['b'], dtype=float)
+        darg = [tuple(d) for d in case['distrs']]
+        snaps = (_snap(a_arg), _snap(b_arg), _snap(darg))
+        op_ = UncertaintyQuantification(Model(), darg, a_arg, b_arg)
+        grid_ = GlobalTrapezoidalGridWeighted(a_arg, b_arg, op_, boundary=case['boundary'])
+        op_.set_grid(grid_)
+        op_.set_expectation_variance_Function()
+        ci_ = SpatiallyAdaptiveSingleDimensions2(a_arg, b_arg, operation=op_, norm=2, use_volume_weighting=True, grid_surplusses=op_.get_grid())
+        ci_.performSpatiallyAdaptiv(1, case['lmax'], ErrorCalculatorSingleDimVolumeGuided(), tol=0, max_evaluations=case['maxev'],
+                                    print_output=False)
+        return op_, ci_, (a_arg, b_arg, darg), snaps
+
+    def changed(args, snaps):
+        return [n for n, x, s_ in zip(('a', 'b', 'distributions'), args, snaps) if _snap(x) != s_]
     try:
-        op = UncertaintyQuantification(Model(), [tuple(d) for d in case['distrs']], a, b)
-        grid = GlobalTrapezoidalGridWeighted(a, b, op, boundary=case['boundary'])
-        op.set_grid(grid)
-        op.set_expectation_variance_Function()
-        ci = SpatiallyAdaptiveSingleDimensions2(a, b, operation=op, norm=2, use_volume_weighting=True, grid_surplusses=op.get_grid())
-        ci.performSpatiallyAdaptiv(1, case['lmax'], ErrorCalculatorSingleDimVolumeGuided(), tol=0, max_evaluations=case['maxev'],
-                                   print_output=False)
+        op, ci, args, snaps = build()
         E, V = op.calculate_expectation_and_variance(ci)
         P, W = ci.get_points_and_weights()
         allv = [float(x) for x in list(E) + list(V) + list(op.get_result()) + [sum(W)]]
@@ -371,20 +402,38 @@ def impl_moments(case):
             return ('nan', dict(E=[float(x) for x in E], V=[float(x) for x in V], wsum=float(sum(W)), npoints=len(W)))
         res = dict(integral=[sx.rat(float(x)) for x in op.get_result()], E=[sx.rat(float(x)) for x in E],
                    V=[sx.rat(float(x)) for x in V], wsum=sx.rat(float(sum(W))), wabs=sx.rat(float(sum(abs(w) for w in W))),
-                   npoints=len(W))
-        # ---- the same quantities through the other public paths, on the same object (history)
+                   npoints=len(W), arg_mut=changed(args, snaps), aliasing=[])
+        Wl = [float(w) for w in W]
+        Pl = [tuple(float(t) for t in pt) for pt in P]
+        # ---- lesson c: overwrite everything the calls returned; later calls must not see the sentinel
+        try:
+            for obj in (E, V, W, op.get_result()):
+                for i_ in range(len(obj)):
+                    obj[i_] = SENTINEL
+            if isinstance(P, np.ndarray) and P.size:
+                P[:] = SENTINEL
+        except (TypeError, ValueError):
+            pass
+        # ---- the same quantities through the other public paths, on the same live objects (lessons e, f)
         try:
             E2, V2 = op.calculate_expectation_and_variance(ci)                                   # repeated call
             res['again'] = ([sx.rat(float(x)) for x in E2], [sx.rat(float(x)) for x in V2])
             En, Vn = op.calculate_expectation_and_variance(ci, use_combiinstance_solution=False)   # from nodes, weights, model evaluations
             res['nodes'] = ([sx.rat(float(x)) for x in En], [sx.rat(float(x)) for x in Vn])
             res['expectation'] = [sx.rat(float(x)) for x in op.calculate_expectation(ci, use_combiinstance_solution=False)]
+            E4, V4 = op.calculate_expectation_and_variance(ci)                                   # back on the default path
+            res['again2'] = ([sx.rat(float(x)) for x in E4], [sx.rat(float(x)) for x in V4])
+            W5 = ci.get_points_and_weights()[1]
+            if [float(w) for w in W5] != Wl:
+                res['aliasing'].append('get_points_and_weights')
+            if [sx.rat(float(x)) for x in op.get_result()] != res['integral']:
+                res['aliasing'].append('get_result')
         except Exception as e_:
             res['paths_exc'] = _exc(e_)
-        if len(W) <= 2500:
+        if len(Wl) <= 2500:
             mdl = op.f_model
-            res['W'] = [sx.rat(float(w)) for w in W]
-            res['F'] = [[sx.rat(float(v)) for v in mdl.eval(tuple(float(t) for t in pt))] for pt in P]
+            res['W'] = [sx.rat(w) for w in Wl]
+            res['F'] = [[sx.rat(float(v)) for v in mdl.eval(pt)] for pt in Pl]
             # ---- the component grids of the combination: 1D point lists, this dimension's moments, reference weights computed with
             # FRESH one-dimensional distribution objects through the static compute_weights
             fd = [UncertaintyQuantification(Model(), [tuple(case['distrs'][d])], a[d:d + 1], b[d:d + 1]).get_distributions()[0] for d in range(dim)]
@@ -401,8 +450,9 @@ def impl_moments(case):
                     cd['ref'].append([sx.rat(float(x)) for x in GlobalTrapezoidalGridWeighted.compute_weights(pl, a[d], b[d], fd[d], case['boundary'], False)])
                 comps.append(cd)
             res['comps'] = comps
+        res['arg_mut'] = sorted(set(res['arg_mut'] + changed(args, snaps)))
         if case.get('stages'):
-            # ---- history: continue the refinement on the same objects and evaluate again
+            # ---- history: continue the refinement on the same objects and evaluate again ...
             try:
                 ci.continue_adaptive_refinement(tol=0, max_evaluations=case['maxev'] + 25)
                 E3, V3 = op.calculate_expectation_and_variance(ci)
@@ -411,6 +461,14 @@ def impl_moments(case):
                                      wabs=sx.rat(float(sum(abs(w) for w in W3))), npoints=len(W3), integral=[sx.rat(float(x)) for x in op.get_result()])
             except Exception as e_:
                 res['stage2_exc'] = _exc(e_)
+            # ---- ... and a twin pipeline WITHOUT any observer call between the stop and the continuation (lesson e): bit-identical
+            try:
+                op_t, ci_t, _, _ = build()
+                ci_t.continue_adaptive_refinement(tol=0, max_evaluations=case['maxev'] + 25)
+                Et, Vt = op_t.calculate_expectation_and_variance(ci_t)
+                res['twin'] = dict(E=[sx.rat(float(x)) for x in Et], V=[sx.rat(float(x)) for x in Vt], integral=[sx.rat(float(x)) for x in op_t.get_result()])
+            except Exception as e_:
+                res['twin_exc'] = _exc(e_)
         return ('ok', res)
     except Exception as e_:
         return _exc(e_)
@@ -437,6 +495,7 @@ def check_weights(chk, cases, impl, keys, samples, origin=None, tag='weights'):
         if 'ctor' in c:
             chk.count('%s:constructor arguments %s' % (tag, c['ctor']))
         sig0 = dict(family=fam, boundary=int(c['boundary']), mb=int(c['mb']), infinite=int(math.isinf(c['a']) or math.isinf(c['b'])))
+        chk.count('%s:magnitude %s' % (tag, magnitude_class(c['a'], c['b'], c['distr'])))
         if st != 'ok' or 'setup' in r:
             chk.violation('corr:C15/weights', 'worker-failed', dict(sig0, status=st), slim(c), dict(impl=str(r)[:400]))
             continue
@@ -488,13 +547,17 @@ def check_weights(chk, cases, impl, keys, samples, origin=None, tag='weights'):
             continue
         st, r = impl[i]
         fam = c['distr'][0]
-        sig0 = dict(family=fam, boundary=int(c['boundary']), mb=int(c['mb']), infinite=int(math.isinf(c['a']) or math.isinf(c['b'])))
+        sig0 = dict(family=fam, boundary=int(c['boundary']), mb=int(c['mb']), infinite=int(math.isinf(c['a']) or math.isinf(c['b'])),
+                    far_from_origin=int(magnitude_class(c['a'], c['b'], c['distr']).startswith('far from origin')))
         pts = r['pts']; n = len(pts)
         mw = by[i]['w']
         chk.traces += 1
         bad = []
         for obs in ('weights', 'static'):
             iw = r[obs]
+            if iw[0] == 'skip':
+                chk.count('%s:set_grid raised in another dimension (this dimension judged by the static call)' % tag)
+                continue
             if iw[0] == 'exc':
                 if mw != [0]:
                     bad.append((obs + ' raises', dict(impl=iw, model='accepts')))
@@ -539,6 +602,11 @@ def check_weights(chk, cases, impl, keys, samples, origin=None, tag='weights'):
                     break
                 if e1 is not None:
                     sc = max(abs(qq(pts[j][1])), abs(qq(pts[j + 1][1])), sg)
+                    # an interval much wider than sigma (point lists copied from a differently scaled dimension): the one-pass
+                    # Gauss-Kronrod rule of the implementation cannot see the density between its nodes - not compared
+                    if qq(pts[j + 1][1]) - qq(pts[j][1]) > 20 * sg:
+                        chk.count('%s:normal first moment on an interval > 20 sigma (unresolved by the one-pass quadrature, not compared)' % tag)
+                        continue
                     dev = abs(m1 - e1) / (abs(m0) * sc) if m0 != 0 else F(0)
                     maxdev['Normal (finite intervals, relative to m0*max|x|)'] = max(maxdev.get('Normal (finite intervals, relative to m0*max|x|)', 0.0), float(dev))
                     if abs(m1 - e1) > F(1, 10 ** 6) * abs(m0) * sc + F(1, 10 ** 13):
@@ -548,6 +616,8 @@ def check_weights(chk, cases, impl, keys, samples, origin=None, tag='weights'):
         if orc:
             ca_, cb_ = r['cdf_ab']
             sig0 = dict(sig0, support_covered=int(abs(cb_ - ca_ - 1) <= F(1, 10 ** 12)))
+            if orc[0] == 'exception':
+                sig0['negative_weight_assert'] = int('calculated negative weight' in orc[1])
             chk.violation('oracle:weights/' + orc[0], 'weights-' + orc[0], sig0, slim(c), dict(property_predicate=orc[1], points=[ext_float(p) for p in pts][:70],
                                                                                              correspondence=[b_[0] for b_ in bad][:4]))
         elif bad:
@@ -613,13 +683,19 @@ def oracle_mid(rec):
     ppf_ok = rec['mid0'] is not None and a < ext_float(rec['mid0']) < b        # the distribution's ppf delivers a point inside
     if total > F(1, 10 ** 12) and ppf_ok:
         # equal probability (only meaningful when the interval carries probability the cdf can resolve)
-        if abs((cm - ca) - (cb - cm)) > F(1, 10 ** 8) * total + F(1, 10 ** 15):
+        # the midpoint is a float: moving it by one ulp changes the probabilities by density * ulp(m) (density ~ total / (b - a))
+        fin = [abs(x) for x in (a, b, m) if not math.isinf(x)]
+        width = (b - a) if not (math.isinf(a) or math.isinf(b)) else (abs(m - (b if math.isinf(a) else a)) if not (math.isinf(a) and math.isinf(b)) else math.inf)
+        grid_term = F(0) if math.isinf(width) or width == 0 else 16 * total * sx.rat(max(fin) * 2.0 ** -52 / width)
+        if abs((cm - ca) - (cb - cm)) > F(1, 10 ** 8) * total + F(1, 10 ** 15) + grid_term:
             return ('equal-probability', 'P(left) = %.6g, P(right) = %.6g' % (float(cm - ca), float(cb - cm)))
     return None
 
 
 def oracle_weights(c, r):
     """Property predicate on the implementation's weights alone."""
+    if r['weights'][0] == 'skip':
+        return None
     if r['weights'][0] == 'exc':
         n = len(r['pts'])
         if c['boundary'] or n > 3 or n in (1, 3):
@@ -685,11 +761,38 @@ def hypothesis_check(r, n):
 
 # ----------------------------------------------------------------------------------------------- part C: histories on grid objects
 FIN_DOMAINS = [(0.0, 1.0), (-1.0, 3.0), (2.0, 2.5), (-3.0, 6.0)]
+# magnitudes (lesson d): far from the origin, tiny, huge; (1e6, 1e6+1) is where the triangle first moment of the unchanged code breaks down
+MAG_DOMAINS = [(1024.0, 1026.0), (0.0, 2.0 ** -20), (-2.0 ** 20, 2.0 ** 20), (1000000.0, 1000001.0)]
+MAG_NORMALS = [(0.0, 2.0 ** -20), (0.0, 2.0 ** 20), (1000000.0, 1.0), (1024.0, 2.0 ** -10)]
+
+
+def pick_domain(rng):
+    return rng.choice(MAG_DOMAINS) if rng.random() < 0.2 else rng.choice(FIN_DOMAINS)
+
+
+def magnitude_class(a, b, distr=None):
+    """Position of the distribution relative to its own scale S (lesson d): S = sigma for the normal distribution, b - a otherwise;
+    M = |mu| resp. max(|a|, |b|)."""
+    if distr is not None and distr[0] == 'Normal':
+        S, m = abs(float(distr[2])), abs(float(distr[1]))
+    elif math.isinf(a) or math.isinf(b):
+        return 'infinite'
+    else:
+        S, m = b - a, max(abs(a), abs(b))
+    return 'far from origin (M/S >= 1e5)' if m >= 1e5 * S else ('far (M/S >= 100)' if m >= 100 * S else
+                                                             ('tiny (S <= 1e-5)' if S <= 1e-5 else ('huge (S >= 1e5)' if S >= 1e5 else 'O(1)')))
+
+
 NORMALS = [(0.2, 1.0), (0.0, 2.0), (-3.0, 0.5), (0.0, 1.0), (0.5, 2.0)]
 
 
 def gen_family_on(rng, a, b):
     if math.isinf(a) or math.isinf(b):
+        r = rng.random()
+        if r < 0.15:
+            return ['Normal'] + list(rng.choice(MAG_NORMALS))
+        if r < 0.25:
+            return ['Normal'] + [int(x) for x in rng.choice([(0, 1), (-3, 2), (1, 1)])]          # int-valued parameters
         return ['Normal'] + list(rng.choice(NORMALS))
     r = rng.random()
     if r < 0.35:
@@ -704,6 +807,8 @@ def gen_recipe(rng, finite, small):
     if finite and r < 0.3:
         return ['dyadic', rng.choice([1, 2, 2, 3, 3, 4] if small else [1, 2, 3, 4, 5, 6])]
     n = rng.choice([3, 4, 5, 6, 7, 9]) if small or rng.random() < 0.6 else rng.randrange(10, 41)
+    if not small and rng.random() < 0.04:
+        n = rng.choice([201, 257, 515, 1025])                       # beyond block sizes / thresholds (lesson h)
     return ['own', rng.choice(['uniform', 'uniform', 'left', 'right', 'ends', 'random']), n, [round(rng.random(), 6) for _ in range(n - 2)]]
 
 
@@ -714,10 +819,10 @@ def gen_grid_case(rng):
     the distribution objects and their moment caches."""
     dim = rng.choice([1, 2, 2, 2, 3, 3])
     if rng.random() < 0.75:
-        dom = (-math.inf, math.inf) if rng.random() < 0.3 else rng.choice(FIN_DOMAINS)
+        dom = (-math.inf, math.inf) if rng.random() < 0.3 else pick_domain(rng)
         doms = [dom] * dim
     else:
-        doms = [((-math.inf, math.inf) if rng.random() < 0.3 else rng.choice(FIN_DOMAINS)) for _ in range(dim)]
+        doms = [((-math.inf, math.inf) if rng.random() < 0.3 else pick_domain(rng)) for _ in range(dim)]
     distrs = []
     for d in range(dim):
         same = [e for e in range(d) if doms[e] == doms[d]]
@@ -759,7 +864,14 @@ def gen_grid_case(rng):
             else:
                 recs.append(gen_recipe(rng, finite[d], small))
         steps.append(dict(g=rng.randrange(len(grids)), dims=recs))
-    return dict(kind='grid', distrs=distrs, a=[lo for lo, _ in doms], b=[hi for _, hi in doms], form=form, grids=grids, steps=steps)
+    for st in steps:
+        # how the request is handed over (lessons a, b, i): container type, the SAME list objects as in other dimensions / earlier
+        # requests ('shared'), level lists that are true tree levels / all zero / arbitrary (non-contiguous, unsorted, large)
+        st['ptype'] = rng.choice(['list', 'shared', 'shared', 'tuple', 'array'])
+        st['levels'] = rng.choice(['tree', 'tree', 'zeros', 'odd'])
+    return dict(kind='grid', distrs=distrs, a=[lo for lo, _ in doms], b=[hi for _, hi in doms], form=form, grids=grids, steps=steps,
+                ab=rng.choice(['array', 'array', 'list', 'int' if all(float(x).is_integer() and abs(x) < 2 ** 31 for x in
+                                                                 [v for d_ in doms for v in d_ if not math.isinf(v)]) and not any(math.isinf(v) for d_ in doms for v in d_) else 'list']))
 
 
 def _level_dyadic(i, k):
@@ -772,6 +884,19 @@ def _level_dyadic(i, k):
     return lv
 
 
+def _snap(x):
+    """Deep snapshot of an argument object (nested lists / tuples / ndarrays) for the argument-immutability comparison."""
+    import numpy as np
+    if isinstance(x, np.ndarray):
+        return ('nd', str(x.dtype), x.shape, x.tolist())
+    if isinstance(x, (list, tuple)):
+        return (type(x).__name__, [_snap(y) for y in x])
+    return (type(x).__name__, x)                     # 1 and 1.0 are different arguments
+
+
+SENTINEL = 1e300
+
+
 def impl_grid(case):
     import numpy as np
     import warnings
@@ -781,6 +906,14 @@ def impl_grid(case):
     from sparseSpACE.Function import FunctionLinear
     dim = len(case['a'])
     a = np.array(case['a'], dtype=float); b = np.array(case['b'], dtype=float)
+    # the objects handed to the library (lesson b: the SAME a, b objects go to the operation and to every grid object)
+    abf = case.get('ab', 'array')
+    if abf == 'list':
+        a_arg, b_arg = [float(x) for x in a], [float(x) for x in b]
+    elif abf == 'int':
+        a_arg, b_arg = np.array([int(x) for x in a]), np.array([int(x) for x in b])
+    else:
+        a_arg, b_arg = np.array(a), np.array(b)
     tup = [tuple(x) for x in case['distrs']]
     if case.get('form') == 'string':
         darg = tup[0][0]
@@ -788,13 +921,21 @@ def impl_grid(case):
         darg = [t[0] if len(t) == 1 else t for t in tup]
     else:
         darg = list(tup)
-    out = dict(steps=[])
+    out = dict(steps=[], arg_mut=[])
+    snap_d, snap_a, snap_b = _snap(darg), _snap(a_arg), _snap(b_arg)
     try:
-        op = UncertaintyQuantification(FunctionLinear([1.0] * dim), darg, a, b)
-        grids = [make_grid(a, b, op, g['boundary'], g['mb'], g.get('ctor', 'kw')) for g in case['grids']]
+        op = UncertaintyQuantification(FunctionLinear([1.0] * dim), darg, a_arg, b_arg)
+        if _snap(darg) != snap_d:
+            after = _snap(darg)
+            only_strings = (isinstance(darg, list) and after[0] == 'list' and len(after[1]) == len(snap_d[1])
+                            and all(x == y or (x[0] == 'str' and y == ('tuple', [x])) for x, y in zip(snap_d[1], after[1])))
+            out['arg_mut'].append(dict(argument='distributions', call='UncertaintyQuantification.__init__', before=str(snap_d)[:200], after=str(after)[:200],
+                                       rewrite='string entries -> 1-tuples' if only_strings else 'other'))
+        grids = [make_grid(a_arg, b_arg, op, g['boundary'], g['mb'], g.get('ctor', 'kw')) for g in case['grids']]
         dobjs = op.get_distributions()
         out['shared_objects'] = [[int(dobjs[i] is dobjs[j]) for j in range(dim)] for i in range(dim)]
-        # fresh, independent one-dimensional references (their own operation, distribution object and caches)
+        # fresh, independent one-dimensional references (their own operation, distribution object and caches); they stay alive and are
+        # used interleaved with the history (lesson g: several instances in one process)
         fops = [UncertaintyQuantification(FunctionLinear([1.0]), [tup[d]], a[d:d + 1], b[d:d + 1]) for d in range(dim)]
     except Exception as e_:
         out['setup'] = _exc(e_)
@@ -803,7 +944,8 @@ def impl_grid(case):
     for k, st in enumerate(case['steps']):
         g = grids[st['g']]
         bd, mb = case['grids'][st['g']]['boundary'], case['grids'][st['g']]['mb']
-        rec = dict(g=st['g'], dims=[], mids=[])
+        ptype = st.get('ptype', 'list')
+        rec = dict(g=st['g'], dims=[], mids=[], arg_mut=[], aliasing=[], observers=[])
         pts, levs = [], []
         try:
             for d, rp in enumerate(st['dims']):
@@ -814,18 +956,29 @@ def impl_grid(case):
                     p = [float(a[d] + (b[d] - a[d]) * i / 2 ** kk) for i in range(2 ** kk + 1)]
                     l = [_level_dyadic(i, kk) for i in range(2 ** kk + 1)]
                 elif rp[0] == 'copy':
-                    p, l = list(pts[rp[1]]), list(levs[rp[1]])
+                    # 'shared': the very same list object in two dimensions
+                    p, l = (pts[rp[1]], levs[rp[1]]) if ptype == 'shared' else (list(pts[rp[1]]), list(levs[rp[1]]))
                 elif rp[0] == 'prev':
-                    p, l = list(resolved[rp[1]][0][rp[2]]), list(resolved[rp[1]][1][rp[2]])
+                    # 'shared': the very same list object that an earlier request handed over
+                    p, l = resolved[rp[1]][0][rp[2]], resolved[rp[1]][1][rp[2]]
+                    if ptype != 'shared':
+                        p, l = list(p), list(l)
                 else:                                           # ['list', points, levels]
                     p, l = [float(x) for x in rp[1]], list(rp[2])
                 pts.append(p); levs.append(l)
+            if st.get('levels') == 'zeros':
+                levs = [[0] * len(p) for p in pts]
+            elif st.get('levels') == 'odd':
+                levs = [[(7 * i + 3 * d) % 5 * 100 + (13 if i % 2 else 2) for i in range(len(p))] for d, p in enumerate(pts)]
             # one midpoint query per dimension on an interval of ANOTHER dimension's point list where the domains agree (a cache of
             # midpoints keyed by the interval alone would answer with the other distribution's midpoint)
             for d in range(dim):
                 for e in range(dim):
                     if e != d and (a[e], b[e]) == (a[d], b[d]) and len(pts[e]) >= 2 and len(rec['mids']) < 12:
                         j = (k + d) % (len(pts[e]) - 1)
+                        lo_, hi_ = pts[e][j], pts[e][j + 1]
+                        if (math.isinf(lo_) or math.isinf(hi_)) and max([abs(x) for x in (lo_, hi_) if not math.isinf(x)] + [0.0]) >= 64:
+                            continue                  # the fallback a + 1e-14 is not representable there (excluded axis value)
                         build_tree(g, dobjs[d], d, pts[e][j], pts[e][j + 1], 3, 'random', [0.0], rec['mids'])
         except Exception as e_:
             rec['resolve'] = _exc(e_)
@@ -833,20 +986,54 @@ def impl_grid(case):
             break
         resolved.append((pts, levs))
         rec['pts'] = [[ext(float(x)) for x in p] for p in pts]
-        rec['levels'] = levs
+        rec['levels'] = [list(l) for l in levs]
+        # the argument objects of this request
+        if ptype == 'tuple':
+            parg, larg = tuple(tuple(p) for p in pts), tuple(tuple(l) for l in levs)
+        elif ptype == 'array':
+            parg, larg = [np.array(p, dtype=float) for p in pts], [np.array(l) for l in levs]
+            for d, rp in enumerate(st['dims']):
+                if rp[0] == 'copy':
+                    parg[d] = parg[rp[1]][:]                       # a view of the other dimension's array (one parent buffer)
+        elif ptype == 'shared':
+            parg, larg = pts, levs
+        else:
+            parg, larg = [list(p) for p in pts], [list(l) for l in levs]
+        snap_p, snap_l = _snap(parg), _snap(larg)
+        set_exc = None
         try:
-            g.set_grid([list(p) for p in pts], [list(l) for l in levs])
+            g.set_grid(parg, larg)
             W = [('ok', [sx.rat(float(w)) for w in g.weights[d]], [ext(float(x)) for x in g.coordinate_array[d]]) for d in range(dim)]
             rec['numPoints'] = [int(x) for x in g.numPoints]
         except Exception as e_:
-            W = [_exc(e_)] * dim
+            set_exc = _exc(e_)
+            W = [set_exc] * dim
+        if _snap(parg) != snap_p:
+            rec['arg_mut'].append(dict(argument='grid_points', call='set_grid'))
+        if _snap(larg) != snap_l:
+            rec['arg_mut'].append(dict(argument='grid_levels', call='set_grid'))
+        statics = []
         for d in range(dim):
-            dd = dict(weights=W[d])
+            dd = dict()
             try:
-                w = GlobalTrapezoidalGridWeighted.compute_weights(list(pts[d]), a[d], b[d], dobjs[d], bd, mb)
+                sarg = list(pts[d])
+                ssnap = _snap(sarg)
+                w = GlobalTrapezoidalGridWeighted.compute_weights(sarg, a[d], b[d], dobjs[d], bd, mb)
                 dd['static'] = ('ok', [sx.rat(float(x)) for x in w])
+                if _snap(sarg) != ssnap:
+                    rec['arg_mut'].append(dict(argument='grid_1D', call='compute_weights'))
+                # lesson c: overwrite what the call returned; a second call must not see the sentinel
+                try:
+                    for i_ in range(len(w)):
+                        w[i_] = SENTINEL
+                    w2 = GlobalTrapezoidalGridWeighted.compute_weights(list(pts[d]), a[d], b[d], dobjs[d], bd, mb)
+                    if [sx.rat(float(x)) for x in w2] != dd['static'][1]:
+                        rec['aliasing'].append(dict(getter='compute_weights', dim=d))
+                except TypeError:
+                    pass
             except Exception as e_:
                 dd['static'] = _exc(e_)
+            statics.append(dd['static'])
             try:
                 dd['moments'] = [(sx.rat(_f(dobjs[d].get_zeroth_moment(pts[d][i], pts[d][i + 1]))),
                                   sx.rat(_f(dobjs[d].get_first_moment(pts[d][i], pts[d][i + 1])))) for i in range(len(pts[d]) - 1)]
@@ -867,8 +1054,13 @@ def impl_grid(case):
             if tup[d][0] == 'Normal':
                 dd['normal_ref'] = normal_reference_moments(tup[d], [float(x) for x in pts[d]])
             rec['dims'].append(dd)
-        # the tensor product: get_weights / getWeight / getPoints
-        if W[0][0] == 'ok':
+        # set_grid of a d-dimensional grid raises as a whole: the exception belongs to the dimensions whose own compute_weights raises;
+        # when no dimension raises on its own, it stays with every dimension
+        culprits = [d for d in range(dim) if statics[d][0] == 'exc']
+        for d in range(dim):
+            rec['dims'][d]['weights'] = W[d] if (set_exc is None or not culprits or d in culprits) else ('skip',)
+        # the tensor product: get_weights / getWeight / getPoints, observers on the live object (lessons c, e)
+        if set_exc is None:
             try:
                 npts = 1
                 for d in range(dim):
@@ -877,13 +1069,54 @@ def impl_grid(case):
                 if npts <= 4000:
                     tw = g.get_weights()
                     rec['tensor'] = [sx.rat(float(x)) for x in tw]
-                    rec['n_getPoints'] = len(g.getPoints())
+                    gp = g.getPoints()
+                    rec['n_getPoints'] = len(gp)
                     if npts > 0:
                         idx = [(7 * k + 3 * d + 1) % len(W[d][1]) for d in range(dim)]
                         rec['getWeight'] = (idx, sx.rat(float(g.getWeight(idx))))
+                        g.getCoordinate(idx); g.get_coordinates(); g.get_num_points()
+                    # overwrite what the getters returned
+                    if isinstance(tw, np.ndarray) and tw.size:
+                        tw[:] = SENTINEL
+                    if isinstance(gp, list) and gp:
+                        gp[:] = [SENTINEL] * len(gp)
+                    if [sx.rat(float(x)) for x in g.get_weights()] != rec['tensor']:
+                        rec['aliasing'].append(dict(getter='get_weights'))
+                    if len(g.getPoints()) != rec['n_getPoints'] or (gp and g.getPoints()[0] == SENTINEL):
+                        rec['aliasing'].append(dict(getter='getPoints'))
+                # the stored state is as set_grid left it
+                W2 = [('ok', [sx.rat(float(w)) for w in g.weights[d]], [ext(float(x)) for x in g.coordinate_array[d]]) for d in range(dim)]
+                if W2 != W:
+                    rec['observers'].append('weights / coordinates of the grid object changed by get_weights / getPoints / getWeight / get_mid_point')
             except Exception as e_:
                 rec['tensor_exc'] = _exc(e_)
+            # lesson c: the arrays set_grid left in .weights are results in the caller's hands - overwrite them; the next request
+            # (often the same points again) must not see the sentinel
+            try:
+                for d in range(dim):
+                    wd = g.weights[d]
+                    for i_ in range(len(wd)):
+                        wd[i_] = SENTINEL
+            except (TypeError, ValueError):
+                pass
+        if _snap(a_arg) != snap_a or _snap(b_arg) != snap_b:
+            rec['arg_mut'].append(dict(argument='a' if _snap(a_arg) != snap_a else 'b', call='constructor / set_grid'))
+        if _snap(darg) != snap_d and not out['arg_mut']:
+            rec['arg_mut'].append(dict(argument='distributions', call='set_grid'))
         out['steps'].append(rec)
+    # lesson c for the getter of the distribution objects: overwrite the returned list, ask again
+    try:
+        lst = op.get_distributions()
+        keep = list(lst)
+        for i_ in range(len(lst)):
+            lst[i_] = SENTINEL
+        again = op.get_distributions()
+        if any(x is SENTINEL or x == SENTINEL for x in again):
+            out['aliasing'] = [dict(getter='get_distributions')]
+            for i_ in range(len(again)):
+                again[i_] = keep[i_]
+    except Exception as e_:
+        out['aliasing_exc'] = _exc(e_)
     return out
 
 
@@ -916,8 +1149,26 @@ def check_grids(chk, cases, impl, keys, samples):
             continue
         if any(r['shared_objects'][x][y] for x in range(dim) for y in range(x + 1, dim)):
             chk.count('grid:distribution object shared between dimensions')
+        chk.count('grid:a, b handed over as %s' % c.get('ab', 'array'))
+        chk.count('grid:argument snapshots compared (a, b, distributions, grid_points, grid_levels, grid_1D)')
+        for m_ in r.get('arg_mut', []):
+            chk.violation('oracle:argument-mutated', 'argument-mutated', dict(argument=m_['argument'], call=m_['call'], rewrite=m_.get('rewrite', '')), dict(c, steps=[]),
+                          dict(property_predicate='the library modified an object it was given', **m_))
+        for al in r.get('aliasing', []):
+            chk.violation('oracle:result-aliases-internal-state', 'result-aliases-internal-state', dict(getter=al['getter']), dict(c, steps=[]),
+                          dict(property_predicate='overwriting the object %s returned changes what the next call returns' % al['getter']))
         for k, rec in enumerate(r['steps']):
             hist = dict(c, steps=c['steps'][:k + 1])
+            chk.count('grid:request container %s' % c['steps'][k].get('ptype', 'list'))
+            chk.count('grid:request levels %s' % c['steps'][k].get('levels', 'tree'))
+            for m_ in rec.get('arg_mut', []):
+                chk.violation('oracle:argument-mutated', 'argument-mutated', dict(argument=m_['argument'], call=m_['call']), hist,
+                              dict(property_predicate='the library modified an object it was given', **m_))
+            for al in rec.get('aliasing', []):
+                chk.violation('oracle:result-aliases-internal-state', 'result-aliases-internal-state', dict(getter=al['getter']), hist,
+                              dict(property_predicate='overwriting the object %s returned changes what the next call returns' % al['getter']))
+            for ob in rec.get('observers', []):
+                chk.violation('oracle:observer-changes-state', 'observer-changes-state', dict(where='grid'), hist, dict(property_predicate=ob))
             if 'resolve' in rec:
                 chk.violation('oracle:mid/exception', 'mid-exception', dict(dim=dim), hist, dict(impl=str(rec['resolve'])[:300]))
                 break
@@ -1069,7 +1320,7 @@ def check_moments(chk, cases, impl, keys, samples):
                 tol = F(1, 2 ** 45) * (abs(integral[k + j]) + integral[j] ** 2)
                 if abs(mV[j] - r['V'][j]) > tol:
                     bad = ('variance', dict(component=j, impl=float(r['V'][j]), model=float(mV[j])))
-        if any(integral[k + j] - integral[j] ** 2 < -F(1, 10 ** 9) * (1 + abs(integral[k + j])) for j in range(k)):
+        if any(integral[k + j] - integral[j] ** 2 < -F(1, 10 ** 9) * (abs(integral[k + j]) + integral[j] ** 2) for j in range(k)):
             chk.count('moments:raw-variance-negative (mom2 < mom1^2)')
             chk.extra['raw_variance_negative_cases'] = chk.extra.get('raw_variance_negative_cases', 0) + 1
             if 'raw_negative_sample' not in chk.extra:
@@ -1105,7 +1356,7 @@ def check_moment_paths(chk, cases, impl):
                     truncated_normal=int(any(d[0] == 'Normal' and not (math.isinf(lo) and math.isinf(hi)) for d, lo, hi in zip(c['distrs'], c['a'], c['b']))))
         dim = len(c['a'])
         chk.count('moments:model output length %d' % c.get('outputs', 2))
-        chk.count('moments:c=%s' % ('0' if c['c'] == 0 else ('negative' if c['c'] < 0 else ('large' if abs(c['c']) > 100 else 'positive'))))
+        chk.count('moments:c=%s' % ('0' if c['c'] == 0 else ('|c| <= 2^-12' if abs(c['c']) < 1e-3 else ('|c| >= 1024' if abs(c['c']) > 1000 else ('negative' if c['c'] < 0 else 'positive')))))
         same_dom = len(set(zip(c['a'], c['b']))) < dim and len(set(map(str, c['distrs']))) > 1
         if same_dom:
             chk.count('moments:different distributions on a shared domain')
@@ -1115,22 +1366,43 @@ def check_moment_paths(chk, cases, impl):
                                exception=str(r['paths_exc'])))
         else:
             chk.count('moments:paths (repeated call, use_combiinstance_solution=False, calculate_expectation)')
-            scale = (abs(F(c['c'])) * 2 + abs(F(c['e'])) + 1)
-            tolE = F(1, 10 ** 10) * scale * (1 + r['wabs'])
-            tolV = F(1, 10 ** 10) * scale * scale * (1 + r['wabs'])
+            fs_, cc_, e_, G_, sc_ = moment_scales(c)
+            comp_scale = [G_, sc_, abs(F(c['const'])) * fs_][:c.get('outputs', 2)]          # magnitude of each output component
+            tolE = [F(1, 10 ** 10) * x * (1 + r['wabs']) for x in comp_scale]
+            tolV = [F(1, 10 ** 10) * x * x * (1 + r['wabs']) for x in comp_scale]
             orc = None
             if r['again'] != (r['E'], r['V']):
-                orc = ('repeated-call', 'a second calculate_expectation_and_variance on the same objects returns different numbers')
+                orc = ('repeated-call', 'a second calculate_expectation_and_variance on the same objects (after the returned arrays were overwritten) returns different numbers')
+            elif r['again2'] != (r['E'], r['V']):
+                orc = ('observer-changes-state', 'calculate_expectation_and_variance differs after a call of the nodes-and-weights path')
             elif r['expectation'] != r['nodes'][0]:
                 orc = ('calculate-expectation', 'calculate_expectation(use_combiinstance_solution=False) differs from the expectation of the same path')
-            elif any(abs(x - y) > tolE for x, y in zip(r['nodes'][0], r['E'])) or len(r['nodes'][0]) != len(r['E']):
+            elif any(abs(x - y) > t for x, y, t in zip(r['nodes'][0], r['E'], tolE)) or len(r['nodes'][0]) != len(r['E']):
                 orc = ('paths-expectation', 'E from nodes/weights %s, from the combined integral %s' % ([float(x) for x in r['nodes'][0]], [float(x) for x in r['E']]))
-            elif any(abs(x - y) > tolV for x, y in zip(r['nodes'][1], r['V'])):
+            elif any(abs(x - y) > t for x, y, t in zip(r['nodes'][1], r['V'], tolV)):
                 orc = ('paths-variance', 'Var from nodes/weights %s, from the combined integral %s' % ([float(x) for x in r['nodes'][1]], [float(x) for x in r['V']]))
             elif any(v < 0 for v in r['nodes'][1]):
                 orc = ('variance-negative', 'negative variance %s on the nodes/weights path' % float(min(r['nodes'][1])))
             if orc:
                 chk.violation('oracle:moments/' + orc[0], 'moments-law', dict(sig0, clause=orc[0]), c, dict(property_predicate=orc[1]))
+        chk.count('moments:model magnitude 2^%d' % round(math.log2(c.get('fscale', 1.0))))
+        for nm in r.get('arg_mut', []):
+            chk.violation('oracle:argument-mutated', 'argument-mutated', dict(argument=nm, call='UQ run'), c,
+                          dict(property_predicate='the library modified the object %s it was given' % nm))
+        for nm in r.get('aliasing', []):
+            chk.violation('oracle:result-aliases-internal-state', 'result-aliases-internal-state', dict(getter=nm), c,
+                          dict(property_predicate='overwriting what %s (or calculate_expectation_and_variance) returned changes later results' % nm))
+        if 'twin' in r and 'stage2' in r:
+            chk.count('moments:twin pipeline without observer calls compared')
+            if (r['twin']['E'], r['twin']['V'], r['twin']['integral']) != (r['stage2']['E'], r['stage2']['V'], r['stage2']['integral']):
+                chk.violation('oracle:moments/observer-changes-state', 'moments-law', dict(sig0, clause='observer-changes-state'), c,
+                              dict(property_predicate='the continued run differs from a twin run without observer calls between stop and continuation',
+                                   with_observers=[float(x) for x in r['stage2']['E'] + r['stage2']['V']],
+                                   without=[float(x) for x in r['twin']['E'] + r['twin']['V']]))
+        elif ('twin' in r) != ('stage2' in r) and c.get('stages'):
+            chk.violation('oracle:moments/observer-changes-state', 'moments-law', dict(sig0, clause='observer-changes-state'), c,
+                          dict(property_predicate='only one of the continued run and its twin without observer calls raised',
+                               stage2=str(r.get('stage2_exc')), twin=str(r.get('twin_exc'))))
         if 'stage2_exc' in r:
             chk.count('moments:continued run raised %s %s' % (r['stage2_exc'][1], r['stage2_exc'][2]))
         elif 'stage2' in r:
@@ -1236,14 +1508,23 @@ def shared_distribution(c):
                    and (c['a'][i], c['b'][i]) != (c['a'][j], c['b'][j]) for i in range(n) for j in range(i + 1, n)))
 
 
+def moment_scales(c):
+    """Magnitudes of the model outputs (lesson d: every tolerance is relative to them): the model is fscale * (g, c g + e[, const]),
+    |g| <= 2 for all model functions used (|const| for the constant model)."""
+    fs = F(c.get('fscale', 1.0))
+    cc, e = F(c['c']), F(c['e']) * fs
+    G = (abs(F(c['const'])) if c['model'] == 'const' else F(2)) * fs
+    return fs, cc, e, G, abs(cc) * G + abs(e)
+
+
 def oracle_moments(c, r):
     E, V = r['E'], r['V']
-    cc, e = F(c['c']), F(c['e'])
-    G = F(2)                                               # |f| <= 2 for all model functions used
-    if c['model'] == 'const':
-        G = abs(F(c['const']))
-    scale = abs(cc) * G + abs(e) + 1
+    fs, cc, e, G, scale = moment_scales(c)
     wabs = r['wabs']
+    K = c.get('outputs', 2)
+    if len(E) != K or len(V) != K or len(r.get('integral', [0] * (2 * K))) != 2 * K:
+        return ('output-length', '%d expectations, %d variances, combined integral of length %d for a model with %d outputs'
+                % (len(E), len(V), len(r.get('integral', [])), K))
     if abs(r['wsum'] - 1) > F(1, 10 ** 11) * (1 + wabs):
         return ('weights-sum', 'combined weights sum to %.15g' % float(r['wsum']))
     if any(v < 0 for v in V):
@@ -1252,13 +1533,12 @@ def oracle_moments(c, r):
         return ('expectation-affine', 'E[c f + e] = %.15g, c E[f] + e = %.15g' % (float(E[1]), float(cc * E[0] + e)))
     if abs(V[1] - cc * cc * V[0]) > F(1, 10 ** 9) * scale * scale * (1 + wabs):
         return ('variance-affine', 'Var[c f + e] = %.15g, c^2 Var[f] = %.15g' % (float(V[1]), float(cc * cc * V[0])))
+    k = F(c['const']) * fs
     if c.get('outputs', 2) == 3:
-        k = F(c['const'])
-        if abs(E[2] - k) > F(1, 10 ** 10) * (1 + abs(k)) * (1 + wabs) or abs(V[2]) > F(1, 10 ** 9) * (1 + k * k) * (1 + wabs):
+        if abs(E[2] - k) > F(1, 10 ** 10) * abs(k) * (1 + wabs) or abs(V[2]) > F(1, 10 ** 9) * k * k * (1 + wabs):
             return ('constant-model', 'constant third output %s: E = %.15g, Var = %.3g' % (float(k), float(E[2]), float(V[2])))
     if c['model'] == 'const':
-        k = F(c['const'])
-        if abs(E[0] - k) > F(1, 10 ** 10) * (1 + abs(k)) * (1 + wabs) or abs(V[0]) > F(1, 10 ** 9) * (1 + k * k) * (1 + wabs):
+        if abs(E[0] - k) > F(1, 10 ** 10) * abs(k) * (1 + wabs) or abs(V[0]) > F(1, 10 ** 9) * k * k * (1 + wabs):
             return ('constant-model', 'constant model %s: E = %.15g, Var = %.3g' % (float(k), float(E[0]), float(V[0])))
     return None
 
@@ -1283,7 +1563,13 @@ def corpus():
                   boundary=False, c=2.0, e=1.0, model='peak', pos=[0.0, 0.0], width=8.0, const=0.0, maxev=10, lmax=2))
     m.append(dict(kind='moments', distrs=[['Normal', 0.0, 1.0], ['Normal', 0.0, 1.0]], a=[-math.inf, -math.inf], b=[math.inf, math.inf],
                   boundary=False, c=0.5, e=-2.0, model='osc', pos=[0.0, 0.0], width=8.0, const=0.0, maxev=10, lmax=2))
+    # sizes beyond internal thresholds / block sizes (lesson h)
+    w.append(dict(kind='weights', distr=['Uniform'], a=-1.0, b=3.0, boundary=True, mb=False, n=1025, style='uniform', picks=[0.0] * 1023, extra_mids=[], ctor='kw'))
+    w.append(dict(kind='weights', distr=['Normal', 0.2, 1.0], a=-math.inf, b=math.inf, boundary=False, mb=False, n=515, style='uniform', picks=[0.0] * 513,
+                  extra_mids=[], ctor='pos'))
     # exemplars of the known findings
+    w.append(dict(kind='weights', distr=['Triangle', 1000000.3], a=1000000.0, b=1000001.0, boundary=True, mb=False, n=9, style='uniform', picks=[0.0] * 7,
+                  extra_mids=[], ctor='kw'))
     w.append(dict(kind='weights', distr=['Normal', 0.0, 1.0], a=-2.0, b=2.0, boundary=True, mb=False, n=6, style='random', picks=[0.0, 0.9, 0.3, 0.5]))
     m.append(dict(kind='moments', distrs=[['Uniform'], ['Uniform']], a=[0.0, 2.0], b=[1.0, 2.5], boundary=True, c=-3.0, e=0.0, model='jump',
                   const=-2.0, maxev=20, lmax=2))
@@ -1338,7 +1624,9 @@ def run(chk):
     ph['moments: implementation'] = round(time.time() - t0, 1); t0 = time.time()
     check_moments(chk, mcases, mimpl, keys, samples)
     check_moment_paths(chk, mcases, mimpl)
-    ph['moments: model + comparison'] = round(time.time() - t0, 1)
+    ph['moments: model + comparison'] = round(time.time() - t0, 1); t0 = time.time()
+    confirm_alone(chk, [wcases, gcases, mcases])
+    ph['confirmation of violating cases in fresh processes'] = round(time.time() - t0, 1)
     chk.record_cases(len(wcases) + len(mcases) + len(gcases), keys,
                      'weights: (distribution in uniform/triangle/normal, finite, half-infinite or infinite support, boundary, modified basis for uniform, '
                      'constructor argument style, refinement tree of 1..60 points (3% of the cases 65..1025) built with the grid\'s own weighted midpoint, '
@@ -1349,6 +1637,86 @@ def run(chk):
                      'oscillating models whose raw combined variance is negative and differently distributed dimensions on one domain, both evaluation '
                      'paths, combined weights rebuilt from the component grids; non-trivial = >= 3 grid points resp. >= 4 tensor points resp. >= 5 '
                      'sparse grid points; distinct by all parameters', samples)
+
+
+def _reevaluate(cases):
+    """Run the cases (one kind) sequentially in ONE fresh worker process and collect what the comparison / oracle code reports for the last one."""
+    kind = cases[-1].get('kind')
+    col = _Collector()
+    if kind == 'grid':
+        cs = [{k: v for k, v in c.items() if k != 'focus'} for c in cases]
+        res = run_impl(impl_grid, cs, nproc=1, limit=200)
+        check_grids(col, cs[-1:], res[-1:], [], [])
+    elif kind == 'moments':
+        res = run_impl(impl_moments, cases, nproc=1, limit=300)
+        st, r = res[-1]
+        if st == 'ok' and r[0] == 'ok':
+            o = oracle_moments(cases[-1], r[1])
+            if o:
+                col.violation('oracle:moments/' + o[0], 'moments-law', {}, cases[-1], dict(property_predicate=o[1]))
+            check_moment_paths(col, cases[-1:], res[-1:])
+        elif st == 'ok' and r[0] in ('exc', 'nan'):
+            col.violation('oracle:moments/' + r[0], 'moments-law', {}, cases[-1], dict(impl=str(r)[:300]))
+    elif kind == 'weights':
+        res = run_impl(impl_weights, cases, nproc=1, limit=120)
+        check_weights(col, [dict(cases[-1])], res[-1:], [], [])
+    else:
+        return None
+    return col
+
+
+def confirm_alone(chk, parts):
+    """Lesson g: the workers evaluate many cases per process, so state shared at class / module level can leak from one case into the next.
+    Every group of violations with a failing input is re-run ALONE in a fresh process; when it does not reproduce there, the cases that preceded
+    it in its part are replayed in front of it in one fresh process and the violation's case becomes that sequence (kind 'sequence')."""
+    import json
+    import os
+    try:
+        known = [f for f in json.load(open(os.path.join(os.path.dirname(os.path.abspath(__file__)), '..', '..', '..', 'known_findings.json')))
+                 if f['property'] == 'C15' and f['status'] == 'known']
+    except Exception:
+        known = []
+
+    def is_known(v):
+        return any(f['signature']['kind'] == v['kind'] and all((v['sig'].get(k) in val) if isinstance(val, list) else (v['sig'].get(k) == val)
+                                                               for k, val in f['signature'].get('where', {}).items()) for f in known)
+    seen = set()
+    for v in sorted(chk.violations, key=lambda v: v['size']):
+        if is_known(v):
+            continue
+        key = (v['kind'], str(sorted(v['sig'].items())) if isinstance(v['sig'], dict) else str(v['sig']))
+        c = v['case']
+        if not v['failing_input'] or key in seen or not isinstance(c, dict) or c.get('kind') not in ('grid', 'moments', 'weights') or len(seen) >= 10:
+            continue
+        seen.add(key)
+        col = _reevaluate([c])
+        if col is not None and any(f[2] for f in col.found):
+            chk.count('confirm:violating case re-run alone in a fresh process - reproduced')
+            v['detail'] = dict(v['detail'], alone_in_fresh_process='reproduced')
+            continue
+        chk.count('confirm:violating case re-run alone in a fresh process - NOT reproduced')
+        plain = {k: x for k, x in c.items() if k != 'focus'}
+        def same(q):
+            q = {k: x for k, x in q.items() if k != '_i'}
+            if q == plain:
+                return True
+            return (q.get('steps') is not None and plain.get('steps') is not None and q['steps'][:len(plain['steps'])] == plain['steps']
+                    and {k: x for k, x in q.items() if k != 'steps'} == {k: x for k, x in plain.items() if k != 'steps'})
+        part = next((p_ for p_ in parts if any(same(q) for q in p_)), None)
+        chain = None
+        if part is not None:
+            idx = next(i for i, q in enumerate(part) if same(q))
+            chain = [{k: x for k, x in q.items() if k != '_i'} for q in part[max(0, idx - 40):idx]] + [plain]
+            col = _reevaluate(chain)
+        if chain is not None and col is not None and any(f[2] for f in col.found):
+            v['case'] = dict(kind='sequence', cases=chain)
+            v['size'] = len(str(chain))
+            v['detail'] = dict(v['detail'], alone_in_fresh_process='not reproduced alone; reproduced after the preceding cases in one fresh process '
+                               '(state shared across instances)')
+        else:
+            v['failing_input'] = False
+            v['detail'] = dict(v['detail'], alone_in_fresh_process='not reproduced alone nor after its predecessors: the violation depends on process state the '
+                               'harness could not reconstruct')
 
 
 class _Collector:
@@ -1367,6 +1735,12 @@ class _Collector:
 
 def replay(chk, rep):
     c = rep['case']
+    if c.get('kind') == 'sequence':
+        col = _reevaluate(c['cases'])
+        for f in (col.found if col else []):
+            print('reported:', f[0], f[1], 'failing-input' if f[2] else 'correspondence-only', str(f[3])[:600])
+        print('property predicate:', 'violated' if col and any(f[2] for f in col.found) else 'holds')
+        return 1 if col and any(f[2] for f in col.found) else 0
     if c.get('kind') == 'grid':
         c = {k: v for k, v in c.items() if k != 'focus'}
         res = run_impl(impl_grid, [c], limit=200)
